@@ -68,6 +68,8 @@ static int g_connect_fail_errno[SH_MAX_TAGS];
 
 static int g_eintr_at, g_blocking_polls;
 static int g_fail_res_at, g_fail_res_errno, g_res_calls, g_res_fault_hit;
+static int g_fail_res_at2, g_fail_res2_skip_eventfd, g_res_fault2_hit;
+static char g_res_fault2_name[32];
 #define MAXRES 512
 static const char *g_res_names[MAXRES];
 
@@ -168,6 +170,14 @@ static int resource_call(const char *name)
         inj = g_fail_res_errno;
         g_res_fault_hit = 1;
     }
+    if (g_fail_res_at2 > 0 && --g_fail_res_at2 == 0 && !inj) {
+        /* second fault of a pair: an errno that is plausible for whichever call it lands on */
+        int fdmaker = !strcmp(name, "socket") || !strcmp(name, "accept4") || !strcmp(name, "epoll_create1") ||
+                      !strcmp(name, "eventfd") || !strcmp(name, "timerfd_create") || !strcmp(name, "fopen");
+        if (!strcmp(name, "eventfd") && g_fail_res2_skip_eventfd) inj = 0;
+        else inj = fdmaker ? EMFILE : !strcmp(name, "connect") ? ECONNREFUSED : EADDRINUSE;
+        if (inj) { g_res_fault2_hit = 1; snprintf(g_res_fault2_name, sizeof(g_res_fault2_name), "%s", name); }
+    }
     unlock();
     return inj;
 }
@@ -208,6 +218,7 @@ void sh_reset(void)
     memset(cnts, 0, sizeof(cnts));
     g_eintr_at = g_blocking_polls = 0;
     g_fail_res_at = g_fail_res_errno = g_res_calls = g_res_fault_hit = 0;
+    g_fail_res_at2 = g_res_fault2_hit = 0;
     memset(g_io_fail_n, 0, sizeof(g_io_fail_n));
     memset(g_budget_on, 0, sizeof(g_budget_on));
     memset(g_connect_fail_errno, 0, sizeof(g_connect_fail_errno));
@@ -356,6 +367,18 @@ static int io_fault(int tag, int dir)
 
 void sh_eintr_at(int n) { lock(); g_eintr_at = n; unlock(); }
 int sh_blocking_polls(void) { return g_blocking_polls; }
+
+void sh_fail_resource_at2(int n, int skip_eventfd)
+{
+    lock();
+    g_fail_res_at2 = n;
+    g_fail_res2_skip_eventfd = skip_eventfd;
+    g_res_fault2_hit = 0;
+    g_res_fault2_name[0] = 0;
+    unlock();
+}
+int sh_resource_fault2_hit(void) { return g_res_fault2_hit; }
+const char *sh_resource_fault2_name(void) { return g_res_fault2_name; }
 
 void sh_fail_resource_at(int n, int err)
 {
@@ -794,7 +817,10 @@ int epoll_ctl(int epfd, int op, int fd, struct epoll_event *ev)
     resolve_epoll_ctl();
     if (t_inside) {
         if (!is_lib_fd(epfd)) foreign_op("epoll_ctl() on epoll instance", epfd);
-        else if (!is_lib_fd(fd)) foreign_op("epoll_ctl() registering", fd);
+        /* removing an entry from the library's own epoll instance changes nothing about the
+         * descriptor named (ux/tcp deinit close the socket first and drop the registration after:
+         * EBADF or ENOENT, harmless); adding or re-arming one it does not own would be a stale use */
+        else if (!is_lib_fd(fd) && op != EPOLL_CTL_DEL) foreign_op("epoll_ctl() registering", fd);
     }
     return real_epoll_ctl(epfd, op, fd, ev);
 }
